@@ -89,7 +89,9 @@ def gen_cases(run):
         unl = k in ("over_multiply", "classfilter", "shuffle", "repeat", "percent", "subset_index", "subset_percent")
         lay = _layout(rng, allow_unlabeled=unl, min_n=1 if k == "repeat" else 0)
         nn = lay["n"]
-        spec = {"kind": k, "layout": lay, "seed": rng.randrange(10 ** 6), "g": [rng.randrange(2 ** 31), rng.randrange(2 ** 31)]}
+        # seeds: boundary values (0 is falsy!) next to arbitrary ones
+        seed = rng.choice([0, 0, 1, 2 ** 31 - 1, 2 ** 32 - 1]) if rng.random() < 0.3 else rng.randrange(10 ** 6)
+        spec = {"kind": k, "layout": lay, "seed": seed, "g": [rng.randrange(2 ** 31), rng.randrange(2 ** 31)]}
         if k == "classfilter":
             pool = list(range(lay["ncls"]))
             spec["sel"] = rng.sample(pool, rng.randint(0, len(pool)))
